@@ -17,6 +17,14 @@ import HL.Lemmas.Completion
 namespace HL.Props.C16
 open HL.Text HL.Completion HL.CompletionSpec HL.Lemmas.Text
 
+/-- The executable pipeline of the driver is `finish` on one admissible ranking, so every theorem
+    below applies to `complete`. -/
+theorem complete_is_finish (lower : Char → Char) (fx : Bool) (t : Table) (st : Settings) (line : Str)
+    (ch : Nat) (trig : Str) :
+    ∃ ranked, IsRanking (countsFor t (determineContext line ch trig)) (scoredFor lower fx t st line ch trig) ranked ∧
+      complete lower fx t st line ch trig = finish fx st line ch trig ranked :=
+  ⟨_, rankExec_isRanking _ _, rfl⟩
+
 /-! ## sound -/
 
 /-- Unguarded form: every returned label is a name of the context's table and matches the query
@@ -234,9 +242,6 @@ theorem bounded (fx : Bool) (st : Settings) (line : Str) (ch : Nat) (trig : Str)
     (finish fx st line ch trig ranked).items.length ≤ normMax st.maxRaw ∧ 0 < normMax st.maxRaw :=
   ⟨truncate_length_le _ _ (normMax_pos _), normMax_pos _⟩
 
-theorem normMax_id (n : Nat) (h : 1 ≤ n) : normMax (n : Int) = n := by
-  unfold normMax; split <;> omega
-
 /-- A smaller maximum returns a prefix of the list returned for a larger one, given the same
     ranked list. -/
 theorem limit_prefix (fx : Bool) (f : Bool) (m₁ m₂ : Int) (line : Str) (ch : Nat) (trig : Str)
@@ -331,34 +336,6 @@ theorem frequency_ranked (lower : Char → Char) (fx : Bool) (t : Table) (st : S
   rw [less_false_iff] at hab
   omega
 
-theorem usage_eq_countOf (t : Table) (c : Ctx) (hj : judged c = true) (l : Str) :
-    usage t c l = countOf (countsFor t c) l := by
-  have key : ∀ m : List (Str × Nat),
-      (match m.find? (·.1 == l) with | some p => p.2 | none => 0) = (m.lookup l).getD 0 := by
-    intro m
-    induction m with
-    | nil => rfl
-    | cons p ps ih =>
-      obtain ⟨a, b⟩ := p
-      simp only [List.find?_cons, List.lookup_cons]
-      by_cases h : a = l
-      · subst h; simp
-      · have h1 : (a == l) = false := by simpa using h
-        have h2 : (l == a) = false := by simpa using fun h' => h h'.symm
-        simp only [h1, h2]; exact ih
-  cases c <;> simp [judged] at hj <;> simp only [usage, countOf, countsFor] <;> exact key _
-
-theorem nonIncreasing_of_pairwise (l : List Nat) (h : l.Pairwise (· ≥ ·)) : nonIncreasing l = true := by
-  induction l with
-  | nil => rfl
-  | cons a r ih =>
-    cases r with
-    | nil => rfl
-    | cons b r =>
-      have h' := List.pairwise_cons.1 h
-      simp only [nonIncreasing, Bool.and_eq_true, decide_eq_true_eq]
-      exact ⟨h'.1 b List.mem_cons_self, ih h'.2⟩
-
 /-- In the form of the executable oracle. -/
 theorem frequency_ranked_oracle (lower : Char → Char) (fx : Bool) (t : Table) (st : Settings) (line : Str)
     (ch : Nat) (trig : Str) (ranked : List Scored)
@@ -380,25 +357,6 @@ theorem frequency_ranked_oracle (lower : Char → Char) (fx : Bool) (t : Table) 
     rw [hfun]; exact this
 
 /-! ## edit_replaces_fragment -/
-
-theorem takeU16_u16len_take (line : Str) (k : Nat) (hk : k ≤ line.length) :
-    takeU16 line (u16len (line.take k)) = k := by
-  induction line generalizing k with
-  | nil => simp at hk; subst hk; rfl
-  | cons c cs ih =>
-    cases k with
-    | zero => simp [u16len, takeU16]
-    | succ k =>
-      have hw := u16w_pos c
-      simp only [List.take_succ_cons, u16len, takeU16]
-      rw [if_neg (by omega), Nat.add_sub_cancel_left, ih k (by simpa using hk)]
-      omega
-
-theorem u16len_take_mono (line : Str) (a b : Nat) (h : a ≤ b) :
-    u16len (line.take a) ≤ u16len (line.take b) := by
-  have := (List.take_append_drop a (line.take b)).symm
-  rw [List.take_take, Nat.min_eq_left h] at this
-  rw [this, u16len_append]; omega
 
 /-- With the repaired code, in the account, payee and commodity contexts the edit range is
     `[s, cursor]` with `s ≤ cursor`, and the text it covers is exactly the query. -/
@@ -455,18 +413,6 @@ example :
 
 /-! ## Where the server's fragment is not the name being typed -/
 
-theorem hasPrefix_false_of_head (line p : Str) (x y : Char) (hl : line.head? = some x) (hp : p.head? = some y)
-    (hxy : y ≠ x) : hasPrefix line p = false := by
-  cases line with
-  | nil => simp at hl
-  | cons a as =>
-    cases p with
-    | nil => simp at hp
-    | cons b bs =>
-      simp only [List.head?_cons, Option.some.injEq] at hl hp
-      subst hl; subst hp
-      simp [hasPrefix, List.isPrefixOf_cons_cons, hxy]
-
 /-- On a posting line (indent, then text without a leading blank) the account query is everything
     between the indent and the cursor, and the edit range starts right after the indent. -/
 theorem posting_fragment_partial (fx : Bool) (ind frag rest : Str) (hi : ind ≠ [])
@@ -503,6 +449,12 @@ theorem posting_fragment_partial (fx : Bool) (ind frag rest : Str) (hi : ind ≠
     have hlen : (b :: bs).length + frag.length - frag.length = (b :: bs).length := by omega
     cases fx <;>
       simp only [e1, e2, e1', e2', Bool.false_eq_true, if_false, if_true, trimLeftP, hdw, hlen]
+
+example : posting_fragment_partial true "    ".toList "assets:c".toList "  1 USD".toList (by decide) (by decide) (by decide)
+    = posting_fragment_partial true "    ".toList "assets:c".toList "  1 USD".toList (by decide) (by decide) (by decide) := rfl
+
+example : hasPrefix "    a:b  1 U".toList fourBlanks = true ∧
+    determineTagContext "    a:b  1 U".toList (takeU16 "    a:b  1 U".toList 12) = .unknown := by decide
 
 /-- `fragment-includes-mark`: that text includes a status mark or an opening parenthesis, which no
     account name contains — typing `(ass` on a virtual posting offers nothing although
@@ -554,7 +506,7 @@ theorem posting_context_partial (line : Str) (ch : Nat)
     rcases hind with h | h <;> simp [h]
   unfold determineContext
   simp only [hsemi, ne_eq, not_true_eq_false, if_false, hne, h1, h2, h3, h4, Bool.false_eq_true,
-    List.cons.injEq, reduceCtorEq, and_false, and_true, or_self, if_true]
+    reduceCtorEq, or_self, if_true]
   unfold determinePostingContext
   simp only []
   split
